@@ -23,7 +23,10 @@ SNew(start, end, step, incl, startc) ==
   /\ sout' = <<"new">>
 
 SerOffset(s) == DMulI(s.step, N(s.k))
-Exhausted(s) == IF s.incl THEN Lt(s.span, SerOffset(s)) ELSE Le(s.span, SerOffset(s))
+(* the comparison is between the exact product k * step and the span: a product beyond the largest   *)
+(* duration is beyond every span (a saturated product would equal a span of exactly the largest      *)
+(* duration for ever, and an inclusive series over such a span would never terminate)                *)
+Exhausted(s) == IF s.incl THEN Lt(s.span, Mul(s.step, N(s.k))) ELSE Le(s.span, Mul(s.step, N(s.k)))
 SNext ==
   IF Exhausted(ser)
   THEN UNCHANGED ser /\ sout' = <<"none">>
@@ -33,7 +36,7 @@ SNext ==
 (* Iterator::nth(n) (the standard default: n calls of next() whose results are dropped, then    *)
 (* one more): lets a trace cross millions of items while every call still goes through next().  *)
 (* Valid for series whose offsets do not saturate (the harness keeps them far from the bounds). *)
-ExhAt(s, j) == IF s.incl THEN Lt(s.span, DMulI(s.step, N(j))) ELSE Le(s.span, DMulI(s.step, N(j)))
+ExhAt(s, j) == IF s.incl THEN Lt(s.span, Mul(s.step, N(j))) ELSE Le(s.span, Mul(s.step, N(j)))
 (* number of items of the whole series: the least exhausted index *)
 CountOf(s) == IF s.incl THEN (IF Lt(s.span, Z) THEN 0 ELSE I(DivF(s.span, s.step)) + 1)
               ELSE (IF Le(s.span, Z) THEN 0 ELSE I(DivF(Sub(s.span, One), s.step)) + 1)
